@@ -34,7 +34,7 @@
 #include <unistd.h>
 
 #define MAXT 16
-#define MAXFIB 4096
+static long maxfib = 4096; /* VR_MAXFIB: scale harnesses create tens of thousands of fibers */
 #define SHDEPTH 128
 
 /* ------------------------------------------------------------------ state */
@@ -191,7 +191,8 @@ static void vr_init(void) {
   objs = calloc(maxobj, sizeof(cell_t));
   htab_key = calloc(1u << HBITS, sizeof(uintptr_t));
   htab_key_cell = calloc(1u << HBITS, sizeof(int32_t));
-  fibers = calloc(MAXFIB, sizeof(vfiber_t));
+  maxfib = envl("VR_MAXFIB", maxfib);
+  fibers = calloc(maxfib, sizeof(vfiber_t));
   rng = (uint64_t)envl("VR_SEED", 1) * 0x9E3779B97F4A7C15ull + 0x1234567;
   if (!rng) rng = 1;
   for (int i = 0; i < 8; i++) xs();
@@ -954,7 +955,7 @@ void* __tsan_get_current_fiber(void) {
 void* __tsan_create_fiber(unsigned flags) {
   (void)flags;
   vr_init();
-  if (nfib >= MAXFIB) vr_finish("TOOMANYFIBERS");
+  if (nfib >= maxfib) vr_finish("TOOMANYFIBERS");
   vfiber_t* f = &fibers[nfib];
   f->id = nfib++;
   f->alive = 1;
